@@ -57,6 +57,17 @@ Section Search.
     - unfold phi. cbn [fst snd proj_es proj_ir]. split; [reflexivity|]. intros s e c Hs. inversion Hs; subst. repeat split; [rewrite EP; left; reflexivity|lia].
   Qed.
 
+  (* the reference search over a pattern of the fragment never runs out of fuel *)
+  Lemma search_total r n P kr kn : gden foldf unicode utf16 cs eqclass r n P kr kn ->
+    forall ng f, kr <= f -> forall tries i, search canon eqclass chars (S f) r ng i tries <> None.
+  Proof.
+    intros [[Hr _] _] ng f Hf. induction tries as [|t IH]; intros i; cbn [search]; [discriminate|].
+    rewrite (Hr f (i, repeat None ng) Hf). unfold lift. cbn [fst snd]. destruct (P i) as [|j l]; cbn [map]; [|discriminate].
+    destruct (i <? length chars); [apply IH|discriminate].
+  Qed.
+  Lemma bnd_off i : bnd cs (off cs i).
+  Proof. exists (firstn i cs), (skipn i cs). split; [symmetry; apply firstn_skipn|reflexivity]. Qed.
+
   (* the whole-pattern IR the parser returns is Cat [x; Goal]; the search runs on ir_top of it = Cat [x] *)
   Lemma gden_top r x P kr kn : gden foldf unicode utf16 cs eqclass r x P kr kn ->
     gden foldf unicode utf16 cs eqclass r (ir_top (NCat [x; NGoal])) P kr (S kn).
